@@ -252,9 +252,12 @@ func (m *c08Model) programSite(r *Run, s *Step, o *Outcome) string {
 	running, keeperLevel := false, false
 	for _, nd := range st.Evm.Programs[pi].Spec.Nodes {
 		for _, a := range nd.Acts {
-			if a.K != "pre" || k.Bit(a.Bit) == 0 {
+			// every action of the program counts, kept or not: a keeper-level conversion inside a frame
+			// that is reverted afterwards has still committed its nested state DB
+			if a.K != "pre" {
 				continue
 			}
+			_ = k
 			switch {
 			case strings.HasPrefix(a.T, "token:") || a.T == "wfx":
 				running = true
